@@ -13,6 +13,9 @@ PREFIX = {"unimod": ["U:", "UNIMOD:", "unimod:", "Unimod:", "u:"], "psimod": ["M
           "xlmod": ["X:", "XLMOD:", "xlmod:", "x:"]}
 
 
+
+RULE_EXTRA = ('repeated monosaccharide names and explicit zero counts; formulas with an element repeated across bracket groups; rows with an empty tabulated composition always included; the reported composition weighs the tabulated mass.')
+
 def res(o, v, proj):
     return {"out": o, "v": proj(v) if o == "ret" else []}
 
